@@ -97,12 +97,37 @@ func gtPI(t *gt_c09) string {
 	return "?"
 }
 
-func (g *c09gen) grow(c *gt_c09, n int) {
-	k := 1
-	if c.k == 'C' && c.s == ":-" && len(c.args) == 2 && c.args[1].k == 'C' && c.args[1].s == ";" {
-		k = 2
+// c09AnswerBound: an upper bound of the number of answers the clauses made of c give (for the work estimate)
+func c09AnswerBound(c *gt_c09) int {
+	var body func(b *gt_c09) int
+	body = func(b *gt_c09) int {
+		if b.k == 'C' && len(b.args) == 2 {
+			switch b.s {
+			case ";":
+				if l := b.args[0]; l.k == 'C' && l.s == "->" && len(l.args) == 2 {
+					x, y := body(l.args[1]), body(b.args[1])
+					if x > y {
+						return x
+					}
+					return y
+				}
+				return body(b.args[0]) + body(b.args[1])
+			case ",":
+				return body(b.args[0]) * body(b.args[1])
+			case "->":
+				return body(b.args[1])
+			}
+		}
+		return 1
 	}
-	g.size[gtPI(c)] += k * n
+	if c.k == 'C' && c.s == ":-" && len(c.args) == 2 {
+		return body(c.args[1])
+	}
+	return 1
+}
+
+func (g *c09gen) grow(c *gt_c09, n int) {
+	g.size[gtPI(c)] += c09AnswerBound(c) * n
 }
 
 var c09Consts = []*gt_c09{ga("a"), ga("b"), gi(1), gi(2)}
@@ -153,14 +178,65 @@ func (g *c09gen) clauseHead() *gt_c09 {
 	return mk(name, args)
 }
 
-func (g *c09gen) wrapBody(h *gt_c09) *gt_c09 {
-	switch k := g.r.Intn(10); {
-	case k < 6:
-		return h
-	case k < 9:
-		return grule(h, ga("true"))
+// bodyAtom: true, fail, X = constant, X = Y over the variables of the head
+func (g *c09gen) bodyAtom(hv []*gt_c09) *gt_c09 {
+	k := g.r.Intn(8)
+	switch {
+	case k < 2:
+		return ga("true")
+	case k < 3:
+		return ga("fail")
+	case len(hv) == 0:
+		return gc("=", g.constant(), g.constant())
+	case k < 7 || len(hv) < 2:
+		return gc("=", pick(g.r, hv), g.constant())
 	default:
-		return grule(h, gc(";", ga("true"), ga("true"))) // two clauses with one raw term
+		return gc("=", hv[0], hv[1])
+	}
+}
+
+// alternative: what ONE stored clause executes — a conjunction of atoms, sometimes an if-then-else or a
+// nested disjunction (more than one answer from one clause)
+func (g *c09gen) alternative(hv []*gt_c09) *gt_c09 {
+	switch k := g.r.Intn(20); {
+	case k < 11:
+		return g.bodyAtom(hv)
+	case k < 14:
+		return gc(",", g.bodyAtom(hv), g.bodyAtom(hv))
+	case k < 17:
+		return gc(";", gc("->", g.bodyAtom(hv), g.bodyAtom(hv)), g.bodyAtom(hv)) // one clause
+	default:
+		return gc(",", g.bodyAtom(hv), gc(";", g.bodyAtom(hv), g.bodyAtom(hv))) // one clause, up to two answers
+	}
+}
+
+// wrapBody: a fact, a rule, or a rule whose body is a top-level disjunction of 2-3 alternatives: compile
+// stores ONE CLAUSE PER ALTERNATIVE, all with the same source term; only calls tell them apart.
+func (g *c09gen) wrapBody(h *gt_c09) *gt_c09 {
+	var hv []*gt_c09
+	for _, v := range h.vars(nil) {
+		hv = append(hv, gv(v))
+	}
+	switch k := g.r.Intn(20); {
+	case k < 9:
+		return h
+	case k < 11:
+		return grule(h, ga("true"))
+	case k < 13:
+		return grule(h, g.alternative(hv))
+	case k < 14:
+		return grule(h, gc(";", ga("true"), ga("true")))
+	default:
+		n := 2 + g.r.Intn(2)
+		alts := make([]*gt_c09, n)
+		for i := range alts {
+			alts[i] = g.alternative(hv)
+		}
+		b := alts[n-1]
+		for i := n - 2; i >= 0; i-- {
+			b = gc(";", alts[i], b)
+		}
+		return grule(h, b)
 	}
 }
 
@@ -363,11 +439,7 @@ func (g *c09gen) nestedTry() (string, bool) {
 	}
 	noteAssert := func(c *gt_c09) {
 		pi := gtPI(c)
-		k := 1
-		if c.k == 'C' && c.s == ":-" && len(c.args) == 2 && c.args[1].k == 'C' && c.args[1].s == ";" {
-			k = 2
-		}
-		growth[pi] += k * mult
+		growth[pi] += c09AnswerBound(c) * mult
 	}
 	n := 2 + g.r.Intn(4)
 	var goals []string
@@ -537,8 +609,12 @@ func genC09Case(r *rand.Rand, tier string) string {
 // duplicated), two open retracts and one open call — all interleavings, LIFO or not.
 func c09Exhaustive() []string {
 	setup := "az C1:p I1 ; az C1:p I2 ; az C1:p I1"
+	x := gv(100)
 	alphabet := []string{"or 0 C1:p V0", "or 1 C1:p I1", "oc 2 C1:p V1", "nx 0", "nx 1", "nx 2",
-		"aa C1:p I0", "az C1:p I1", "ab C2:/ Ap I1", "ra C1:p I1"}
+		"aa C1:p I0", "az C1:p I1", "ab C2:/ Ap I1", "ra C1:p I1",
+		// one assert = several clauses, in the order of the alternatives
+		"aa " + grule(gc("p", x), gc(";", gc("=", x, gi(5)), gc("=", x, gi(1)))).wire(),
+		"az " + grule(gc("p", x), gc(";", gc("=", x, gi(1)), gc(";", ga("fail"), gc("=", x, gi(7))))).wire()}
 	var out []string
 	var rec func(prefix []string, depth int)
 	rec = func(prefix []string, depth int) {
@@ -939,5 +1015,31 @@ func runC09(payload string) string {
 			return "6+"
 		}
 	}
-	return strings.Join(res, " ; ") + fmt.Sprintf(" ### nt=%d mode=%s upd_while_open=%s errors=%s steps=%s", nt, m, bucket(updOpen), bucket(errs), bucket(steps))
+	// asserts of a rule whose body is a top-level disjunction: one assert = several stored clauses
+	multiA, multiZ := 0, 0
+	for _, cmd := range strings.FieldsFunc(payload, func(r rune) bool { return r == ';' || r == '&' }) {
+		f := strings.Fields(cmd)
+		if len(f) >= 4 && f[1] == "C2::-" {
+			// skip the head, look at the functor of the body
+			k, need := 2, 1
+			for need > 0 && k < len(f) {
+				need--
+				if strings.HasPrefix(f[k], "C") {
+					if n, err := strconv.Atoi(f[k][1:strings.IndexByte(f[k], ':')]); err == nil {
+						need += n
+					}
+				}
+				k++
+			}
+			if k < len(f) && f[k] == "C2:%3b" && !(k+1 < len(f) && f[k+1] == "C2:->") {
+				switch f[0] {
+				case "aa":
+					multiA++
+				case "az":
+					multiZ++
+				}
+			}
+		}
+	}
+	return strings.Join(res, " ; ") + fmt.Sprintf(" ### nt=%d mode=%s upd_while_open=%s errors=%s steps=%s asserta_block=%s assertz_block=%s", nt, m, bucket(updOpen), bucket(errs), bucket(steps), bucket(multiA), bucket(multiZ))
 }
